@@ -172,6 +172,19 @@ def run(ctx):
         w_in = {b_ for b_ in wr if b_ in body}
         if some_t is not None and w_in and hh not in main.reachable(some_t, avoid=w_in):
             wr.add(hh)
+    # likewise a loop over `once(x).chain(..)`: its first element is always there
+    for hh, (body, latches) in sorted(lps4.items()):
+        th = main.term(hh)
+        if not (th["k"] == "call" and (callee_of(th) or "").endswith("::next")
+                and re.search(r"adapters::chain::Chain<core::iter::sources::once::Once<", (th.get("arg_tys") or [""])[0])):
+            continue
+        sw = main.term(th["t"]) if th.get("t") is not None else None
+        if not sw or sw["k"] != "switch":
+            continue
+        some_t = {v_: x_ for v_, x_ in sw["targets"]}.get(1)
+        w_in = {b_ for b_ in wr if b_ in body}
+        if some_t is not None and w_in and hh not in main.reachable(some_t, avoid=w_in):
+            wr.add(hh)
     ctx.need(okrets, "Ok(..) return in the compile arm")
     ctx.instance(1, {"success returns": len(okrets), "write sites": len(wr)})
     dodge = [b for b in okrets if b in main.reachable(entry, avoid=wr)] if wr else okrets
